@@ -20,8 +20,14 @@ func (k BaseKeeper) InitGenesis(ctx sdk.Context, genState *types.GenesisState) {
 	totalBalance := sdk.Coins{}
 	genState.Balances = types.SanitizeGenesisBalances(genState.Balances)
 
+	seen := make(map[string]struct{}, len(genState.Balances))
 	for _, balance := range genState.Balances {
 		addr := balance.GetAddress()
+		// an address listed twice would have its second entry overwrite the first while both count towards the total
+		if _, dup := seen[string(addr)]; dup {
+			panic(fmt.Errorf("duplicate balance entry for address %s", addr))
+		}
+		seen[string(addr)] = struct{}{}
 
 		if err := k.initBalances(ctx, addr, balance.Coins); err != nil {
 			panic(fmt.Errorf("error on setting balances %w", err))
